@@ -5,6 +5,7 @@ From Coq Require Import List Bool String Relations ZArith.
 From HI Require Import Model.Tracker Model.Conv Proofs.Tracker Proofs.IncSync Proofs.Conv.
 From HI Require Import Model.ConvDB Proofs.ConvSort Proofs.ConvHist_base Proofs.ConvHist_keys Proofs.ConvHist_sim
                        Proofs.ConvBack Proofs.ConvHist Proofs.ConvDB_base Proofs.ConvDB Proofs.ConvDB_hist Proofs.ConvDB_multi.
+From HI Require Import Model.ConvOrch Proofs.ConvOrch Proofs.ConvOrch_multi.
 From HI Require Import Model.ConvAnn Proofs.ConvAnn Proofs.ConvAnn_hist Proofs.ConvAnn_back Proofs.ConvAnn_step Proofs.ConvAnn_multi.
 Import ListNotations.
 
@@ -349,3 +350,70 @@ Proof.
   exact (proj2 ann_history_eval).
 Qed.
 Print Assumptions C01_annotations_under_H_example.
+
+(* ================================================================== *)
+(* 9. Orchestration of converters.Sync (Model/ConvOrch.v): the ingress converter and the      *)
+(*    always-full gateway source G on one haproxy model and one tracker                       *)
+(* ================================================================== *)
+
+(* 9a. For every cluster and every history of well formed batches (several events per object)
+       that name the changed Services and Secrets -- ingress-side objects and objects shared
+       with G alike -- sync_o never fails and after EVERY reconciliation the hosts of both
+       owners are those of a full sync of both sources on the current cluster.
+       hist_ok_or asks of every step: batch_wf, batch_links_ok (of the ingress side) and
+       g_stable: what G produces only changes when a gateway object changed (ob_full) or
+       something G tracks is in changed.Links.  No disjointness of hostnames is needed. *)
+Theorem C01_orchestration_history : forall (w0 : oworld) (h : list (obatch * oworld)),
+  hist_ok_or w0 h ->
+  exists t, run_trace (sync_full_o w0) h = Some t /\
+            forall w' x', In (w', x') t -> hosts_eq (fst x') (fst (sync_full_o w')).
+Proof. exact model_history_o. Qed.
+Print Assumptions C01_orchestration_history.
+
+(* one reconciliation re-establishes the invariant, full or partial *)
+Theorem C01_orchestration_step : forall (w w' : oworld) (x : st) (b : obatch),
+  InvOr w x -> batch_wf (ow_base w) (ow_base w') (ob_base b) ->
+  batch_links_ok (ow_base w) (ow_base w') (ob_base b) -> g_stable w w' b ->
+  exists x', sync_o w' x b = Some x' /\ InvOr w' x'.
+Proof. exact model_step_o. Qed.
+Print Assumptions C01_orchestration_step.
+
+(* conservativity: a full sync of both sources shows G's hosts as G builds them and every other
+   host as the ingress converter alone builds it, when G's hosts are no ingress's *)
+Theorem C01_orchestration_conservative : forall w, g_disjoint w ->
+  forall h, fst (sync_full_o w) (THost h)
+            = match assoc h (og_hosts (ow_g w)) with
+              | Some r => Some (CHost r)
+              | None => fst (sync_full (ow_base w)) (THost h)
+              end.
+Proof. exact sync_full_o_hosts. Qed.
+Print Assumptions C01_orchestration_conservative.
+
+(* 9b. The order before /repo commit 5060862 (G asked before the added ingress is linked to
+       what it declares): Secret ns1/tls-1, Ingress ing3 b.example -> svc1, Gateway hosts
+       g1.gw.example and g2.gw.example (certificate tls-1, routes to svc1); ing4 with only tls
+       {b.example, tls-1} is created.  sync_old runs the ingress partial sync, which reaches gw
+       through b.example and svc1 and drops both hosts of G; sync_o asks for the full sync. *)
+Theorem C01_orchestration_old_refuted :
+  batch_wf (ow_base ow0) (ow_base ow1) (ob_base ob1) /\
+  hosts_o (sync_old ow1 (sync_full_o ow0) ob1)
+    = Some [Some {| h_paths := [{| hp_path := "/"; hp_type := Prefix; hp_back := "ns1_svc1_8080" |}]; h_tls := Some "H1" |};
+            None; None; None] /\
+  hosts_o (Some (sync_full_o ow1))
+    = Some [Some {| h_paths := [{| hp_path := "/"; hp_type := Prefix; hp_back := "ns1_svc1_8080" |}]; h_tls := Some "H1" |};
+            Some (o_ghost "10.1.0.1"); Some (o_ghost "10.1.0.1"); None] /\
+  hosts_o (sync_o ow1 (sync_full_o ow0) ob1) = hosts_o (Some (sync_full_o ow1)).
+Proof. exact orchestration_old_refuted. Qed.
+Print Assumptions C01_orchestration_old_refuted.
+
+(* 9c. a satisfiable history: a partial sync that leaves G alone (an ingress on another host
+       and service), a full sync asked by G (the Endpoints it reads change), the batch of 9b *)
+Theorem C01_orchestration_example :
+  hist_ok_or ow0 ohist /\
+  need_full (pretrack (ow_base ow2) (sync_full_o ow0) (ob_base ob2)) (b_links (ob_base ob2)) = Some false /\
+  hosts_o (sync_o ow2 (sync_full_o ow0) ob2) = hosts_o (Some (sync_full_o ow2)) /\
+  get_host (fst (sync_full_o ow2)) "c.example" <> None /\
+  get_host (fst (sync_full_o ow2)) "g1.gw.example" = Some (o_ghost "10.1.0.1") /\
+  need_full (pretrack (ow_base ow3) (sync_full_o ow2) (ob_base ob3)) (b_links (ob_base ob3)) = Some true.
+Proof. exact (conj orch_history_ok orch_history_eval). Qed.
+Print Assumptions C01_orchestration_example.
